@@ -11,6 +11,7 @@ import (
 	"go/parser"
 	"go/printer"
 	"go/token"
+	"math"
 	"os"
 	"path/filepath"
 	"sort"
@@ -90,6 +91,9 @@ func intLit(e ast.Expr) (int, bool) {
 	}
 	if p, ok := e.(*ast.ParenExpr); ok {
 		return intLit(p.X)
+	}
+	if se, ok := e.(*ast.SelectorExpr); ok && !neg && src(se) == "math.MinInt" { // reg is an int: 64 bits here
+		return math.MinInt64, true
 	}
 	bl, ok := e.(*ast.BasicLit)
 	if !ok || bl.Kind != token.INT {
@@ -386,13 +390,13 @@ type operand struct {
 }
 
 type rule struct {
-	lhs    []string
-	guards []string
-	rhs    string
+	lhs     []string
+	guards  []string
+	rhs     string
 	a, b, c operand
-	pos    int
-	skip   int
-	line   int
+	pos     int
+	skip    int
+	line    int
 }
 
 func flattenAnd(e ast.Expr) []ast.Expr {
